@@ -8,7 +8,7 @@ import obj_lib
 from obj_lib import *
 
 PROPS = "Props/C18"
-FUEL = 4000          # model recursion depth beyond which FillRandom counts as diverging
+FUEL = 1000000       # model recursion depth (Go: 256 MB stack); the draw budget (60000 draws, both sides) normally triggers first
 
 
 def run(ctx):
@@ -90,9 +90,13 @@ def run(ctx):
                 if m != "bad" and not m.startswith("encnone"):
                     umism.append((u.name, l, m, g))
             elif gf[0] in ("crash", "panic"):
-                if m == "fuel":    # the faithful model diverges as well: the depth limiter does not bound this type
+                # never returned: stack overflow / draw budget (60000 draws) / watchdog.  Known divergence only when the
+                # faithful model does not finish on the same stream either (and the type is recursive)
+                if m in ("fuel", "budget") and rank[tid] == 0:
                     udiv.setdefault(name, []).append(l)
                     s_["diverging_both"] += 1
+                elif m == "budget" and "verif-draw-budget" in g:
+                    s_["over_budget_nonrecursive"] = s_.get("over_budget_nonrecursive", 0) + 1
                 else:
                     ubad.append((u.name, l, g, f"C18:crash:{u.name}:{name}", "FillRandom crashes although the model terminates"))
             else:
@@ -111,7 +115,7 @@ def run(ctx):
             for name, ls in udiv.items():
                 diverging.append({"unit": u.name, "type": name, "seeds": [x.split(" ")[2] for x in ls][:5], "of": per})
                 ctx.violation(f"C18:F7:fillrandom-diverges:{name}",
-                              f"{u.name}: FillRandom of {name} never returns (stack overflow) for {len(ls)} of {per} seeds, e.g. `{ls[0]}`; the model runs out of fuel {FUEL} on the same streams",
+                              f"{u.name}: FillRandom of {name} does not return (stack overflow or more than 60000 draws) for {len(ls)} of {per} seeds, e.g. `{ls[0]}`; the model does not finish on the same streams either",
                               {"unit": u.name, "op": ls[0], "files": [str(f) for f in u.files]})
             if len(samples) < 12 and gl:
                 j = rng.randrange(len(gl))
@@ -133,6 +137,6 @@ def run(ctx):
         assumptions=["64-bit platform", "the templates are modelled, not verified: agreement shown on the listed schemas x seeds",
                      "TL2 and JSON writers are covered by the Go-side oracle only (the Coq model is TL1-level): partial",
                      "termination is proved for the non-recursive part of a schema only (rank certificate); for recursive types it depends on the stream (and fails for F7-like types)",
-                     f"divergence of the model is observed as out-of-fuel at fuel {FUEL}, proved for all fuel only for the F7 schema"],
+                     f"non-termination is observed as out-of-fuel at fuel {FUEL} or more than 60000 draws (same budget on both sides), proved for all fuel and all streams only for the F7 schema"],
         extra={"evaluations": stats["fills"] + stats["diverging_both"], "distinct_nontrivial": stats["fills"],
                "skipped_constructs": skipped[:40], "diverging_types": diverging})
